@@ -10,6 +10,12 @@ returns SearchStep::Match(a, b) or Reject(a, b):
          on the whole haystack (text on both sides of the cursor stays visible to ^, $, \\b and lookarounds); no other
          search entry point and no slicing of the haystack is used.
 A path that loops while moving the cursor without emitting a step is reported with the END clause.
+  INIT   RegexSearcher::new starts un-exhausted at the haystack's ends: `current_pos` = 0, `reverse_pos` =
+         haystack.len(), `done` = `reverse_done` = false (constants): the first step starts at the edge of the haystack
+         for every haystack, the empty one included (`"".find(&re)` must see the empty match at 0).
+  BOUND  a loop in the searcher that walks a byte offset by +-1 (to leave the inside of a UTF-8 sequence) tests
+         `haystack.is_char_boundary(x)` on the very offset `x` it steps: testing another variable never moves (or never
+         stops) the walk and the stored cursor / emitted bound lands inside a character.
 """
 import re
 
@@ -96,6 +102,80 @@ def check(facts):
             r.ok("%s %d step-returning paths keep cursor == end of step" % (fn, okc))
             r.sample({"function": fn, "paths_ok": okc, "problems": {k: v[:1] for k, v in problems.items()}})
     r.floor("step_paths", nsteps, 8)
+
+    # INIT
+    newf = [n for n in facts.body_names() if "pattern_impl" in n and n.endswith("::new") and "RegexSearcher" in n]
+    if not newf:
+        r.error("RegexSearcher::new not found in the pattern configuration")
+    for fn in newf:
+        b = facts.body(fn)
+        aggs = [st for bi, i, st in b.iter_stmts() if st["k"] == "assign" and st["rv"]["k"] == "agg" and "RegexSearcher" in str(st["rv"].get("adt"))]
+        if len(aggs) != 1:
+            r.fail("%s initial state" % fn, "expected one RegexSearcher literal, found %d" % len(aggs), facts.loc(fn))
+            continue
+        a = aggs[0]["rv"]
+        vals = dict(zip(a.get("fields") or [], a.get("ops") or []))
+        hay = [l for l in range(1, b.argc + 1) if b.local_name(l) == "haystack"]
+        probs = []
+        for fld, want in (("current_pos", 0), ("done", 0), ("reverse_done", 0)):
+            op = vals.get(fld)
+            if op is None or b.const_of_operand(op) != want:
+                probs.append("`%s` is not the constant %s" % (fld, "false" if fld.endswith("done") else want))
+        op = vals.get("reverse_pos")
+        good = False
+        if op is not None and op.get("k") in ("copy", "move"):
+            d = b.single_def(b.root_of(op["pl"]["l"])[0])
+            if d and d[2] == "call" and (d[3].get("callee") or "").endswith("str>::len") and hay:
+                good = b.root_of(d[3]["args"][0]["pl"]["l"])[0] == hay[0]
+        if not good:
+            probs.append("`reverse_pos` is not haystack.len()")
+        key = "%s initial state" % fn
+        if probs:
+            r.fail(key, "the searcher does not start un-exhausted at the ends of the haystack: %s — for some haystacks (e.g. the empty one) "
+                        "the first step is missing and Match steps no longer equal find_iter" % "; ".join(probs), facts.loc(fn))
+        else:
+            r.ok(key, "current_pos=0, reverse_pos=len, not done")
+            r.sample({"function": fn, "fields": sorted(vals)})
+
+    # BOUND
+    from .lbseq import natural_loops
+    nwalk = 0
+    for fn in [n for n in facts.body_names() if "pattern_impl" in n and "{closure" not in n]:
+        b = facts.body(fn)
+        for h, nodes in sorted(natural_loops(b).items()):
+            stepped = set()
+            for x in nodes:
+                for st in b.blocks[x]["s"]:
+                    if st["k"] == "assign" and not st["pl"]["p"] and st["rv"]["k"] in ("bin", "checked_bin") and st["rv"].get("op") in ("Add", "Sub", "AddWithOverflow", "SubWithOverflow"):
+                        av, bv = st["rv"]["a"], st["rv"]["b"]
+                        if b.const_of_operand(bv) == 1 and av.get("k") in ("copy", "move"):
+                            src = b.root_of(av["pl"]["l"])[0]
+                            dst = st["pl"]["l"]
+                            # x = x +- 1 directly, or through the checked-arithmetic temp
+                            if src == dst or any(s2["k"] == "assign" and s2["pl"]["l"] == src and not s2["pl"]["p"] and s2["rv"]["k"] == "use"
+                                                 and s2["rv"]["op"].get("k") in ("copy", "move") and s2["rv"]["op"]["pl"]["l"] == dst
+                                                 for y in nodes for s2 in b.blocks[y]["s"]):
+                                stepped.add(src if b.local_name(src) else dst)
+            stepped = {l for l in stepped if b.local_name(l) and b.local_ty(l) == "usize"}
+            if not stepped:
+                continue
+            tests = [t for x in nodes for t in [b.blocks[x]["t"]] if t["k"] == "call" and (t.get("callee") or "").endswith("is_char_boundary")]
+            if not tests and not any((t.get("callee") or "").endswith("is_char_boundary") for _, t in b.iter_calls()):
+                continue
+            for l in sorted(stepped):
+                nwalk += 1
+                key = "%s boundary walk of `%s`" % (fn, b.local_name(l))
+                tested = [t for t in tests if len(t["args"]) > 1 and t["args"][1].get("k") in ("copy", "move")
+                          and b.root_of(t["args"][1]["pl"]["l"])[0] == l]
+                if tested:
+                    r.ok(key, "is_char_boundary(%s) tested in the loop (line %s)" % (b.local_name(l), tested[0].get("line")))
+                    r.sample({"function": fn, "variable": b.local_name(l), "test_line": tested[0].get("line")})
+                else:
+                    other = [b.local_name(b.root_of(t["args"][1]["pl"]["l"])[0]) for t in tests if len(t["args"]) > 1 and t["args"][1].get("k") in ("copy", "move")]
+                    r.fail(key, "the loop steps `%s` by one but tests is_char_boundary on %s: the walk does not stop on a character boundary of "
+                                "`%s`, so a cursor / step bound inside a UTF-8 sequence is stored" % (
+                                    b.local_name(l), other or "nothing", b.local_name(l)), facts.loc(fn, b.blocks[h]["t"].get("line")))
+    r.floor("boundary_walks", nwalk, 2)
 
     # WHOLE (MIR): search entry points used by the searcher
     for fn in [n for n in facts.body_names() if "pattern_impl" in n]:
